@@ -376,8 +376,17 @@ def compare(interp, op, a, b, st, node):
         r = _cmp_ranges(name, ra, rb)
         if r is not None:
             return vconst(r)
-    if a.kind == "int" and b.kind == "int" and a.dim is not None and b.dim is not None:
-        c = interp.order.cmp(a.dim, b.dim)
+    da, db = a.dim if a.kind == "int" else None, b.dim if b.kind == "int" else None
+    if da is not None and db is None and b.has_const and isinstance(b.const, float) and b.const == int(b.const):
+        db = Dim(int(b.const))
+    if db is not None and da is None and a.has_const and isinstance(a.const, float) and a.const == int(a.const):
+        da = Dim(int(a.const))
+    if da is not None and db is not None:
+        class _D:  # light holders
+            pass
+        a_, b_ = _D(), _D()
+        a_.dim, b_.dim = da, db
+        c = interp.order.cmp(a_.dim, b_.dim)
         r = None
         if c == 0:
             r = name in ("eq", "le", "ge")
